@@ -19,7 +19,8 @@ from ..common import Ctx
 from ..regen import gen
 from .c04 import float_code
 
-THEOREMS = ["C05_array_elementwise", "C05_array_index", "C05_elem_chars_positive", "C05_idx_from_frame", "C05_temp_range", "C05_ratio_range"]
+THEOREMS = ["C05_array_elementwise", "C05_array_index", "C05_elem_chars_positive", "C05_idx_from_frame", "C05_temp_range", "C05_ratio_range",
+            "C05_zone_mode_setpoint_in_range", "C05_zone_config_temps_in_range", "C05_zone_mode_ignores_idx"]
 
 PRELUDE = ("From Coq Require Import ZArith String List Bool.\nFrom RV Require Import Py PyStr M_Codecs M_CodecsShow M_Payload.\nImport ListNotations.\nOpen Scope Z_scope.\n"
            "Set Printing Width 1000000.\nSet Printing Depth 1000000.\n"
@@ -176,6 +177,7 @@ def run(ctx: Ctx) -> None:
         for n in suites:
             ctx.obligation(f"correspondence:decoder:{n}", False, "correspondence", "model not built")
 
+    parser_models(ctx, built, thorough)
     # (b) every code: JSON-able, deterministic, index-consistent, ranges
     devs = ["01:145038", "13:123456", "10:123456", "07:123456", "22:123456", "04:123456", "02:123456", "30:123456", "32:123456", "18:111111", "23:123456"]
     lines = []
@@ -319,6 +321,99 @@ def run(ctx: Ctx) -> None:
             ctx.violation(f"decode-depends-on-history:{f[6]}", f"{ln} decoded to {before[:200]}, then -- after the same payload was decoded with sequence number 057 -- to {after[:200]}",
                           {"line": ln, "first": before, "again": after}, "history")
     ctx.extra["packets_decoded"] = len(decodable)
+
+
+def parser_models(ctx: Ctx, built: bool, thorough: bool) -> None:
+    """The decoders modelled in M_ModeCmd (parser_2349 / 1f41 / 2e04 / 313f / 000a) against the real decoder on payloads assembled
+    from fields -- mode bytes, temperature words, duration and date-time fields, valid, sentinel and invalid -- NOT only on what the
+    constructors build: the verdict (decoded / rejected) and every decoded value."""
+    import datetime as _dt  # noqa: PLC0415
+
+    from . import c03  # noqa: PLC0415
+
+    rng = ctx.rng
+    n = 900 if thorough else 250
+
+    def dtm12():
+        r = rng.random()
+        if r < 0.2:
+            return "FF" * 6
+        if r < 0.75:
+            y, mth = rng.choice([2024, 2025, 1, 9999, 2100]), rng.randrange(1, 13)
+            return f"{rng.randrange(0, 60):02X}{rng.randrange(0, 24) | rng.choice([0, 0, 0x20, 0xE0]):02X}{rng.randrange(1, 29):02X}{mth:02X}{y:04X}"
+        if r < 0.9:     # not a date: month 13 / day 0 / 30 Feb / minute 60 / hour 24
+            return rng.choice(["00000D0107E8", "0000000107E8", "00001E0207E8", "3C00010107E8", "0018010107E8", "00001D0207E9"])
+        return "".join(rng.choice("0123456789ABCDEF") for _ in range(12))
+
+    def word():
+        return rng.choice(["7FFF", "7EFF", "31FF", "0000", "07D0", "0866", "FFFF", "8000", "954C", "954D", "954B", f"{rng.randrange(0, 65536):04X}"])
+
+    def dur():
+        return rng.choice(["FFFFFF", "FFFFFF", "000000", "00003C", "FFFFFE", f"{rng.randrange(0, 1 << 24):06X}"])
+
+    cases = []
+    for _ in range(n):
+        m = rng.choice(["00", "01", "02", "03", "04", "04", "05"])
+        cases.append(("2349", f"{rng.randrange(0, 16):02X}" + word() + m + dur() + rng.choice(["", "", dtm12()]), "both 0x2349 sh2349 parser_2349"))
+        cases.append(("1F41", rng.choice(["00", "00", "01"]) + rng.choice(["00", "01", "FF"]) + rng.choice(["00", "01", "02", "03", "04", "04", "05"])
+                      + rng.choice(["FFFFFF", "FFFFFF", "FFFFFF", "00003C"]) + rng.choice(["", "", dtm12()]), "both 0x1F41 sh1f41 parser_1f41"))
+        cases.append(("2E04", f"0{rng.randrange(0, 8)}" + dtm12() + rng.choice(["00", "01"]), "both 0x2E04 sh2e04 parser_2e04"))
+        cases.append(("313F", "00" + rng.choice(["60", "60", "FC", "38"]) + f"{rng.randrange(0, 60) | rng.choice([0, 0x80]):02X}" + dtm12(), "both 0x313F sh313f parser_313f"))
+        cases.append(("000A", f"{rng.randrange(0, 16):02X}" + f"{rng.choice([0, 1, 2, 3, 16, 17, 19, 0x13, 0xFF, rng.randrange(0, 256)]):02X}" + word() + word(), "both 0x000A sh000a parser_000a"))
+
+    def tz(t):
+        return [0] if t is None else ([1] if t is False else [2, round(t * 100)])
+
+    def dz(sx):
+        if sx is None:
+            return [0]
+        d = _dt.datetime.fromisoformat(sx)
+        return [1, d.year, d.month, d.day, d.hour, d.minute, d.second]
+
+    def real(code, pl):
+        try:
+            p = decode(f"045  W --- 18:111111 01:145038 --:------ {code} {len(pl) // 2:03d} {pl}")
+        except Exception:  # noqa: BLE001
+            return [9]
+        if code == "2349":
+            return [1, c03.MODES[p["mode"]]] + tz(p["setpoint"]) + ([1, p["duration"]] if "duration" in p else [0]) + ([1] + dz(p["until"]) if "until" in p else [0])
+        if code == "1F41":
+            return [1, c03.MODES[p["mode"]]] + ([1, {None: 2, True: 1, False: 0}[p["active"]]] if "active" in p else [0]) + ([1] + dz(p["until"]) if "until" in p else [0])
+        if code == "2E04":
+            return [1, c03.SYSMODES[p["system_mode"]]] + ([1] + dz(p["until"]) if "until" in p else [0])
+        if code == "313F":
+            return [1] + dz(p["datetime"]) + [1 if p["is_dst"] else 0]
+        return [1] + tz(p["min_temp"]) + tz(p["max_temp"]) + [int(p["local_override"]), int(p["openwindow_function"]), int(p["multiroom_mode"])]
+
+    impl = []
+    for code, pl, _ in cases:
+        r = real(code, pl)
+        impl.append(r)
+        ctx.case(("parser-model", code, pl), r != [9], f"decoder:{code}:" + ("decoded" if r != [9] else "rejected"))
+    if not built:
+        ctx.obligation("correspondence:decoder-models", False, "correspondence", "model not built")
+        return
+
+    def lit(sx):
+        return 'Some (lit "' + sx + '")'
+
+    shard = 400
+    files = {f"p{k // shard}": c03.MC_PRELUDE + "".join(f"Eval vm_compute in ({t} ({lit(pl)})).\n" for _, pl, t in cases[k:k + shard]) for k in range(0, len(cases), shard)}
+    res = common.coq_eval("C05pm", files, timeout=900)
+    bad, total = [], 0
+    for k in range(0, len(cases), shard):
+        rc, out = res[f"p{k // shard}"]
+        rows = [eval(o.replace(";", ","), {"__builtins__": {}}) for o in re.findall(r"=\s*(\[.*?\])\s*:\s*list \(list Z\)", out, flags=re.S)]  # noqa: S307
+        mine = cases[k:k + shard]
+        if rc or len(rows) != len(mine):
+            bad.append(f"rc={rc}, {len(rows)} results for {len(mine)} cases: {out[-300:]}")
+            continue
+        for (code, pl, _), r, row in zip(mine, impl[k:k + shard], rows):
+            total += 1
+            if list(row[1]) != r:
+                bad.append(f"W|{code} {pl}: model {list(row[1])} implementation {r}")
+    ctx.obligation("correspondence:decoder-models", not bad, "correspondence", f"{len(bad)} of {total} differ; first: {bad[0][:500]}" if bad else
+                   f"{total} W|2349/1F41/2E04/313F/000A payloads assembled from valid, sentinel and invalid fields: verdict and decoded values agree")
 
 
 def replay(case: dict) -> int:
